@@ -6,11 +6,18 @@
    Reading guide.  [chain] is the lexical environment: the object lists of the enclosing scopes,
    innermost first, root last.  resolve_top env diff chain d = d.resolve_variables(diff).words;
    resolve_id env diff t n = the same for the definition with primary_id n of the parsed
-   document t.  Ids: 0 stands for None.  doc_ordered t = the ids that are present increase in
-   document order and every definition has one (what freephil.parse produces; the correspondence
-   stream evaluates doc_ordered on every parsed tree it uses). *)
+   document t.  Ids: 0 stands for None.  doc_ordered t = the ids that are present never decrease in
+   document order (pre-order: a scope before its children) and every definition has one.  That is what
+   freephil.parse produces (C12_parsed_documents_are_ordered; the correspondence stream also evaluates
+   doc_ordered on every parsed tree it uses); more precisely the parser hands out 1, 2, 3, ... in
+   document order to EVERY object, and the implicit prefix scopes of a dotted name  a.b.c = 1  carry
+   the id of the object they lead to (/repo 2398dd1; C12_parsed_documents_ids_consecutive,
+   C12_parsed_documents_all_have_ids).  Before that repair the prefix scopes had no id, lexical_get
+   never cut them off, and a LATER dotted definition was visible to an earlier reference (former
+   finding C12-later-dotted-scope-visible); the theorems of the section "backwards only" now cover
+   dotted names without exception. *)
 From Coq Require Import List Ascii String Bool Arith.
-From Phil Require Import Base Tree Vars VarsProofs VarsOrder Parser ParserShape.
+From Phil Require Import Base Tree Vars VarsProofs VarsOrder Parser ParserShape VarsParsed.
 Import ListNotations.
 Local Open Scope char_scope.
 
@@ -141,6 +148,55 @@ Theorem C12_truncation_is_earlier_part : forall n l id,
 Proof. intros n l id. split; [apply trunc_objs_ids_below|apply trunc_keeps_earlier]. Qed.
 Print Assumptions C12_truncation_is_earlier_part.
 
+(* objects appended to a document, all with ids above n (in particular: none without an id), change
+   nothing for the definition with id n.  This is the statement the former finding refuted for the
+   id-less prefix scope of a later dotted definition; see C12_example_later_dotted below for the
+   old witness and C12_example_idless_scope_is_never_cut_off for why "n < id" cannot allow id 0 *)
+Theorem C12_later_appended_irrelevant : forall env diff t later n,
+  doc_ordered t = true -> doc_ordered (t ++ later) = true ->
+  (forall id, In id (pre_ids_l later) -> n < id) ->
+  resolve_id env diff (t ++ later) n = resolve_id env diff t n.
+Proof. exact resolve_id_later_appended. Qed.
+Print Assumptions C12_later_appended_irrelevant.
+
+(* the same behind the last child of an enclosing scope, at the level of what a lookup can see *)
+Theorem C12_later_children_irrelevant : forall m h ks later a,
+  (forall id, In id (pre_ids_l later) -> m <= id /\ id <> 0) ->
+  trunc_obj m (Scp h (ks ++ later) a) = trunc_obj m (Scp h ks a).
+Proof. exact trunc_obj_kids_appended. Qed.
+Print Assumptions C12_later_children_irrelevant.
+
+(* ---------------------------------------------------------------- backwards only, for everything the parser returns
+   (no hypothesis on ids or order is left; dotted names included) *)
+Theorem C12_parsed_backward_only : forall o s s' t t' env diff n,
+  parse o s = Ok t -> parse o s' = Ok t' ->
+  trunc_objs (S n) t = trunc_objs (S n) t' ->
+  resolve_id env diff t n = resolve_id env diff t' n.
+Proof. exact parsed_backward_only. Qed.
+Print Assumptions C12_parsed_backward_only.
+
+(* a parsed document that continues another parsed document: whatever the continuation contains -
+   dotted definitions, scopes, disabled objects - it is irrelevant for every object of the first part *)
+Theorem C12_parsed_appended_irrelevant : forall o s s' t later env diff n,
+  parse o s = Ok t -> parse o s' = Ok (t ++ later) ->
+  In n (pre_ids_l t) ->
+  resolve_id env diff (t ++ later) n = resolve_id env diff t n.
+Proof. exact parsed_appended. Qed.
+Print Assumptions C12_parsed_appended_irrelevant.
+
+(* what a lookup with stop_id n can reach of a parsed document: exactly the objects with ids below n
+   (C12_truncation_is_earlier_part without the alternative "id = 0") *)
+Theorem C12_parsed_truncation_exact : forall o s t n id,
+  parse o s = Ok t ->
+  (In id (pre_ids_l (trunc_objs n t)) <-> In id (pre_ids_l t) /\ id < n).
+Proof. exact parsed_truncation_exact. Qed.
+Print Assumptions C12_parsed_truncation_exact.
+
+Theorem C12_parsed_terminates : forall o s t env diff id,
+  parse o s = Ok t -> resolve_id env diff t id <> Crash c_fuel.
+Proof. exact parsed_terminates. Qed.
+Print Assumptions C12_parsed_terminates.
+
 (* ---------------------------------------------------------------- search order *)
 (* the candidates of one scope are the visible objects that are not disabled and match the path
    (live_cand), in document order *)
@@ -251,27 +307,6 @@ Theorem C12_disabled_invisible : forall stop path l1 o l2,
 Proof. exact scan_skip_disabled. Qed.
 Print Assumptions C12_disabled_invisible.
 
-(* ---------------------------------------------------------------- where the faithful model departs from the property text
-   (open finding C12-later-dotted-scope-visible) *)
-(* a LATER dotted definition (its id-less prefix scope) changes an earlier result:
-     u { a = $s }              gives the environment's s
-     u { a = $s } ; s.x = 1    gives "Not a definition"                                 *)
-Theorem C12_backward_only_refuted_later_dotted :
-  exists env t later,
-    doc_ordered t = true /\ doc_ordered (t ++ later) = true /\
-    (forall id, In id (pre_ids_l later) -> id = 0 \/ 2 < id) /\
-    resolve_id env false t 2 = Ok [mkword (s_ "E") Q2 0] /\
-    resolve_id env false (t ++ later) 2 = UErr k_not_a_def (s_ "s") 1.
-Proof.
-  exists (fun v => if eqs v (s_ "s") then Some (s_ "E") else None).
-  exists [Scp (hd_ "u" false 1 1) [Def (hd_ "a" false 2 1) [w_ "$s" 1] []] []].
-  exists [Scp (hd_ "s" false 0 0) [Def (hd_ "x" false 3 2) [w_ "1" 2] []] []].
-  split; [vm_compute; reflexivity|]. split; [vm_compute; reflexivity|].
-  split; [|split; vm_compute; reflexivity].
-  intros id H. cbn in H. destruct H as [<-|[<-|[]]]; [left; reflexivity|right; repeat constructor].
-Qed.
-Print Assumptions C12_backward_only_refuted_later_dotted.
-
 (* ---------------------------------------------------------------- non-vacuity *)
 Definition ex_doc : list obj :=
   [Def (hd_ "x" false 1 1) [w_ "1" 1; mkword (s_ "two words") Q2 1] [];
@@ -326,7 +361,85 @@ Example C12_example_agree :   (* editing the later x = 3 and appending objects k
    Def (hd_ "x" false 8 9) [w_ "9" 9] []].
 Proof. vm_compute. reflexivity. Qed.
 
+(* the witness of the former finding C12-later-dotted-scope-visible (repaired in /repo 2398dd1):
+     u { a = $s }              uses the environment's s / reports an undefined variable
+     u { a = $s } ; s.x = 1    did raise "Not a definition: $s"; now it is the same as without s.x,
+   because the prefix scope s carries the id 3 of x and ends the scan for stop_id 2 *)
+Definition later_dotted_head : str := s_ "u {
+  a = $s
+}
+".
+Definition later_dotted_tail : str := s_ "s.x = 1
+".
+Definition later_dotted_t : list obj :=
+  [Scp (hd_ "u" false 1 1) [Def (hd_ "a" false 2 2) [w_ "$s" 2] []] []].
+Definition later_dotted_later : list obj :=
+  [Scp (mkhdr (s_ "s") false BinNums.Z0 false 3 0)
+     [Def (mkhdr (s_ "x") false BinNums.Z0 true 3 4) [w_ "1" 4] []] []].
+
+Example C12_example_later_dotted :
+  let env := fun v => if eqs v (s_ "s") then Some (s_ "E") else None in
+  parse [] later_dotted_head = Ok later_dotted_t /\
+  parse [] (later_dotted_head ++ later_dotted_tail) = Ok (later_dotted_t ++ later_dotted_later) /\
+  pre_ids_l (later_dotted_t ++ later_dotted_later) = [1; 2; 3; 3] /\
+  resolve_id env false later_dotted_t 2 = Ok [mkword (s_ "E") Q2 0] /\
+  resolve_id env false (later_dotted_t ++ later_dotted_later) 2 = Ok [mkword (s_ "E") Q2 0] /\
+  resolve_id (fun _ => None) false later_dotted_t 2 = UErr k_undefined (s_ "s") 2 /\
+  resolve_id (fun _ => None) false (later_dotted_t ++ later_dotted_later) 2 = UErr k_undefined (s_ "s") 2.
+Proof. repeat split; vm_compute; reflexivity. Qed.
+
+(* the same inside the enclosing scope:  t { a = $s ; s.x = 1 } *)
+Example C12_example_later_dotted_inside :
+  match parse [] (s_ "t {
+  a = $s
+  s.x = 1
+}
+") with
+  | Ok l => (pre_ids_l l, resolve_id (fun _ => None) false l 2, resolve_id (fun _ => Some (s_ "E")) false l 2)
+  | _ => ([], Crash [], Crash [])
+  end = ([1; 2; 3; 3], UErr k_undefined (s_ "s") 2, Ok [mkword (s_ "E") Q2 0]).
+Proof. vm_compute. reflexivity. Qed.
+
+(* an EARLIER dotted definition is of course still found, through its prefix scope *)
+Example C12_example_earlier_dotted :
+  match parse [] (s_ "s.x = 1
+u {
+  a = $(s.x) ""<$(s.x)>""
+  b = $s
+}
+") with
+  | Ok l => (pre_ids_l l, resolve_id (fun _ => None) false l 3, resolve_id (fun _ => None) false l 4)
+  | _ => ([], Crash [], Crash [])
+  end = ([1; 1; 2; 3; 4], Ok [w_ "1" 1; mkword (s_ "<1>") Q2 0], UErr k_not_a_def (s_ "s") 4).
+Proof. vm_compute. reflexivity. Qed.
+
+(* why C12_later_appended_irrelevant asks for "n < id" and cannot allow objects WITHOUT an id: the
+   code tests "primary_id is not None and primary_id >= stop_id", so an object without primary id
+   never ends the scan.  The parser makes no such object any more (C12_parsed_documents_all_have_ids);
+   a tree assembled by hand (scope(name=...) without primary_id, adopted later) still behaves so *)
+Example C12_example_idless_scope_is_never_cut_off :
+  let env := fun v => if eqs v (s_ "s") then Some (s_ "E") else None in
+  let t := [Scp (hd_ "u" false 1 1) [Def (hd_ "a" false 2 1) [w_ "$s" 1] []] []] in
+  let later := [Scp (hd_ "s" false 0 0) [Def (hd_ "x" false 3 2) [w_ "1" 2] []] []] in
+  doc_ordered t = true /\ doc_ordered (t ++ later) = true /\
+  resolve_id env false t 2 = Ok [mkword (s_ "E") Q2 0] /\
+  resolve_id env false (t ++ later) 2 = UErr k_not_a_def (s_ "s") 1.
+Proof. repeat split; vm_compute; reflexivity. Qed.
+
 (* the hypothesis doc_ordered of the theorems above holds for EVERY document the parser (model) accepts *)
 Theorem C12_parsed_documents_are_ordered : forall o s l, parse o s = Ok l -> doc_ordered l = true.
 Proof. exact parse_doc_ordered. Qed.
 Print Assumptions C12_parsed_documents_are_ordered.
+
+(* every object of a parsed document carries a primary id - the prefix scopes of dotted names
+   included - so every object is subject to the document-order cut-off of lexical_get *)
+Theorem C12_parsed_documents_all_have_ids : forall o s l x,
+  parse o s = Ok l -> In x (pre_ids_l l) -> x <> 0.
+Proof. exact parse_all_have_ids. Qed.
+Print Assumptions C12_parsed_documents_all_have_ids.
+
+(* the ids in document order, the repetitions of the prefix scopes left out, are 1, 2, ..., n *)
+Theorem C12_parsed_documents_ids_consecutive : forall o s l,
+  parse o s = Ok l -> exists n, lead_ids_l l = seq 1 n.
+Proof. exact parse_lead_ids. Qed.
+Print Assumptions C12_parsed_documents_ids_consecutive.
